@@ -250,6 +250,28 @@ func c40(c *Ctx) {
 				return a || b
 			}}, nil)
 	})
+	c.Ob("state-lock", "R4", "the ejection state (endpoint map, address map, config, ejected count, interval timer) is accessed only under the balancer mutex; the helpers documented 'caller must hold b.mu' are checked at their call sites; the mutex is released on every exit; the interval pass and the no-op pass visit every endpoint (their range-over-func loops are never left early)", 10, func() {
+		fld := func(n string) *types.Var { return c.field(odp, ob, n) }
+		locked := map[string]bool{}
+		for _, n := range []string{"noopConfig", "onIntervalConfig", "onNoopConfig", "removeSubConnFromEndpointMapEntry", "endpointsWithAtLeastRequestVolume", "meanAndStdDev", "successRateAlgorithm", "failurePercentageAlgorithm", "ejectEndpoint", "unejectEndpoint"} {
+			locked[odp+"."+ob+"."+n] = true
+		}
+		c.GuardedBy(GuardSpec{Label: "outlierDetectionBalancer", Mu: fld("mu"),
+			Fields: []*types.Var{fld("endpoints"), fld("addrs"), fld("numEndpointsEjected"), fld("intervalTimer"), fld("timerStartTime")},
+			Scope:  c.scope(odp), Locked: locked,
+			Exempt: map[string]string{odp + ".bb.Build": "construction: the balancer is not yet shared"}})
+		// cfg is written only by UpdateClientConnState (serialised by the balancer API), which may therefore read it unlocked; every write holds the mutex
+		c.GuardedBy(GuardSpec{Label: "outlierDetectionBalancer.cfg", Mu: fld("mu"), Fields: []*types.Var{fld("cfg")}, Scope: c.scope(odp), Locked: locked, WriteOnly: true,
+			Exempt: map[string]string{odp + ".bb.Build": "construction: the balancer is not yet shared"}})
+		c.GuardedBy(GuardSpec{Label: "outlierDetectionBalancer.cfg-readers", Mu: fld("mu"), Fields: []*types.Var{fld("cfg")}, Scope: c.scope(odp), Locked: locked,
+			Exempt: map[string]string{odp + ".bb.Build": "construction: the balancer is not yet shared", odp + "." + ob + ".UpdateClientConnState": "the only writer; its own reads cannot race with its write (writes are checked separately)"}})
+		c.WhoMayMutate("cfg-single-writer", fld("cfg"), c.scope(odp), odp+"."+ob+".UpdateClientConnState")
+		n := 0
+		for _, fn := range []string{"intervalTimerAlgorithm", "onNoopConfig", "onIntervalConfig"} {
+			n += c.RangeFuncNoBreak(c.fn(odp, ob+"."+fn), fn+":every-endpoint-visited")
+		}
+		c.Expect(n >= 4, nil, nil, "endpoint-walks", "fewer walks over the endpoints than on the reviewed tree")
+	})
 	c.Ob("uneject-time", "R5", "interval pass: an ejected endpoint is un-ejected when now is after timestamp + min(base x multiplier, max(base, max_ejection_time)); a not-ejected endpoint's multiplier decays by one", 4, func() {
 		f := c.fn(odp, ob+".intervalTimerAlgorithm")
 		fBase := c.field(odp, "LBConfig", "BaseEjectionTime")
@@ -325,6 +347,15 @@ func c40(c *Ctx) {
 			c.ValueIs(st, st.Val, "ejection-sets-flag", ConstBool(true))
 		}
 		c.Expect(len(callsIn(he, FieldCall(fHL))) == 1, nil, he, "ejection-notifies-health-listener", "ejection does not notify the health listener")
+		for _, ci := range callsIn(he, FieldCall(fHL)) {
+			c.MustFact(ci, "listener-called-when-set", NotNil(FieldLoad(fHL)))
+			// skipped only when there is no listener
+			c.MustPass("ejection-always-reaches-a-registered-listener", pathQuery{Fn: he, AtEntry: true, Barrier: func(in ssa.Instruction) bool { return in == ci.(ssa.Instruction) }, Target: isReturn,
+				EdgeBlock: func(from, to *ssa.BasicBlock) bool {
+					_, ok := hasFact(edgeFacts(from, to), IsNil(FieldLoad(fHL)))
+					return ok
+				}}, ci)
+		}
 		uh := c.fn(odp, scw+".updateSubConnHealthState")
 		for _, ci := range callsIn(uh, FieldCall(fHL)) {
 			c.MustFact(ci, "health-suppressed-while-ejected", Truth(FieldLoad(fEj), false))
